@@ -169,6 +169,25 @@ func (g *gen) scenario(id, k int) {
 		kill(g.blobbers[0], "again")
 		g.do(owner, "update_allocation_request", map[string]interface{}{"id": a1.id, "extend": true}, 0, opInfo{variant: "extend-owner", target: a1.id})
 		closeAll()
+	case 4:
+		// free-storage markers redeemed out of nonce order, then every one of them presented again
+		as := g.assigners[0]
+		rcp := g.clients[1]
+		free := func(nonce int64, variant string) {
+			perm := g.r.Perm(len(g.blobbers))
+			bs := []*prov{g.blobbers[perm[0]], g.blobbers[perm[1]], g.blobbers[perm[2]]}
+			in := g.freeMarkerInput(as, as.key, rcp, 0.00001, nonce, bs, false)
+			g.do(rcp, "free_allocation_request", in, 0, opInfo{variant: variant, fmAssigner: as.name, fmRecipient: rcp.ID, fmTokens: 100000, fmNonce: nonce, fmSig: true})
+		}
+		base := int64(g.traceID) * 1000
+		order := []int64{base + 5, base + 3, base + 9, base + 1}
+		for _, n := range order {
+			free(n, "valid")
+			g.nextBlock(10, 1)
+		}
+		for _, n := range []int64{base + 3, base + 1, base + 5, base + 9} {
+			free(n, "replay")
+		}
 	case 3:
 		b := g.blobbers[3] // serves no allocation
 		g.do(b.delegate, "shutdown_blobber", map[string]interface{}{"provider_id": b.key.ID}, 0, opInfo{variant: "delegate", tblob: b.key.ID})
@@ -686,6 +705,10 @@ func (g *gen) stepFree() {
 	tokens := []float64{0.00001, 0.00001, 0.00002, 0.00003, 0.00004, 0.000004}[g.r.Intn(6)]
 	g.nonceSeq++
 	nonce := int64(g.traceID)*1000 + g.nonceSeq
+	if g.chance(40) {
+		// a second, descending series: markers are then redeemed out of nonce order
+		nonce = int64(g.traceID)*1000 + 999 - g.nonceSeq
+	}
 	variant := "valid"
 	sigOK := true
 	tamper := false
